@@ -45,7 +45,7 @@ FUNC_NAME = {'ipv4': 'is_valid_ipv4', 'ipv4s': 'is_valid_ipv4(strict=True)', 'ip
              'ip': 'is_valid_ip', 'cidr': 'is_valid_cidr', 'cidr6': 'is_valid_ipv6_cidr',
              'mac': 'is_valid_mac', 'port': 'is_valid_port', 'icmp_type': 'is_valid_icmp_type',
              'icmp_code': 'is_valid_icmp_code'}
-REQUIRED_CLAUSES = (['answers-rather-than-raises', 'stdlib-agreement', 'scope-length-limit',
+REQUIRED_CLAUSES = (['documented-keyword-call', 'subclass-of-int-or-str-argument', 'answers-rather-than-raises', 'stdlib-agreement', 'scope-length-limit',
                      'range-end-int', 'range-end-str', 'oracle-self-check'] +
                     ['must-accept:' + FUNC_NAME[v] for v in VALIDATORS] +
                     ['must-reject:' + FUNC_NAME[v] for v in VALIDATORS])
@@ -200,7 +200,9 @@ def generic_range(s, lo, hi):
 def generic(s):
     """Class of every validator for an arbitrary string, from the stdlib."""
     if not s.isascii():
-        return dict.fromkeys(VALIDATORS, 'D')
+        # non-ASCII: Python's int() and the address parsers have their own ideas about Unicode digits, so nothing is
+        # claimed - except for MAC addresses, whose alphabet is the ASCII hex digits and nothing else
+        return dict(dict.fromkeys(VALIDATORS, 'D'), mac='R')
     c = {}
     v4 = std_v4(s)
     c['ipv4'] = c['ipv4s'] = 'A' if v4 else 'R'
@@ -464,6 +466,8 @@ def _functions():
 
 def _load_functions():
     from oslo_utils import netutils as nu
+    from vlib import callstyle
+    nu = callstyle.proxy(nu, share=5)
     return {'ipv4': nu.is_valid_ipv4,
             'ipv4s': lambda s: nu.is_valid_ipv4(s, strict=True),
             'ipv6': nu.is_valid_ipv6, 'ip': nu.is_valid_ip,
@@ -485,16 +489,37 @@ def violation_shape(v, text):
     return 'other'
 
 
+class TaggedStr(str):
+    """A str subclass (configuration values, translated or tainted strings are such things)."""
+    __slots__ = ()
+
+
+class TaggedInt(int):
+    __slots__ = ()
+
+
+def wrap_int(v, how):
+    if how == 'intsub':
+        return TaggedInt(v)
+    if how == 'intenum':
+        import enum
+        return enum.IntEnum('Number', {'MEMBER': v}).MEMBER
+    return v
+
+
 def evaluate(ctx, case):
     funcs = _functions()
     kind = case['kind']
     if kind == 'int':
         v = case['value']
         want = num_classes(case)
-        ctx.case(('int', v), True, n=len(want))
+        ctx.case(('int', v, case.get('wrap')), True, n=len(want))
+        arg = wrap_int(v, case.get('wrap'))
+        if case.get('wrap'):
+            ctx.clause('subclass-of-int-or-str-argument')
         for name, k in want.items():
             try:
-                got, exc = funcs[name](v), None
+                got, exc = funcs[name](arg), None
             except BaseException as e:  # noqa
                 got, exc = None, e
             ctx.clause('range-end-int')
@@ -514,7 +539,7 @@ def evaluate(ctx, case):
     for v in VALIDATORS:
         g, b = gen[v], built.get(v)
         if not ascii_text:
-            k = 'D'                                 # non-ASCII: only "does not raise" is claimed
+            k = 'R' if v == 'mac' else 'D'          # non-ASCII: only "does not raise" is claimed (MAC: never well-formed)
         elif b is None:
             k = g
         elif g == 'D' or g == b:
@@ -533,16 +558,20 @@ def evaluate(ctx, case):
         final[v] = k
     nontrivial = kind not in ('raw', 'long') or case.get('origin') == 'mutated' or \
         any(k != 'R' for k in final.values())
-    ctx.case(('s', text) if len(text) < 2000 else ('long', case.get('unit'), case.get('n'),
-                                                   case.get('pre'), case.get('suf')),
+    ctx.case(('s', text, case.get('wrap')) if len(text) < 2000 else ('long', case.get('unit'), case.get('n'),
+                                                                      case.get('pre'), case.get('suf')),
              nontrivial, n=len(VALIDATORS))
+    arg = text
+    if case.get('wrap') == 'strsub':
+        arg = TaggedStr(text)
+        ctx.clause('subclass-of-int-or-str-argument')
     ctx.h('family/sub-class', family)
     is_range_case = kind == 'num'
     has_scope = kind == 'v6' and case.get('scope') is not None and built.get('ipv6') in ('A', 'R')
     for v in VALIDATORS:
         k = final[v]
         try:
-            got, exc = funcs[v](text), None
+            got, exc = funcs[v](arg), None
         except BaseException as e:  # noqa
             got, exc = None, e
         ctx.clause('answers-rather-than-raises')
@@ -842,6 +871,18 @@ def gen_mac(rng, cls):
         for i in rng.sample(range(6), rng.choice([1, 2, 6])):
             groups[i] = rng.choice('0123456789abcdefABCDEF')
         return dict(kind='mac', cls='mac/one-digit-groups', groups=groups, sep=':')
+    if cls == 'unidigit':
+        # exact MAC shape, but one or more digits come from another script (all are str.isdigit() / match \\d)
+        groups = ['%02d' % rng.randrange(100) if rng.random() < 0.6 else g for g in groups]
+        digits = [(i, j) for i, g in enumerate(groups) for j, ch in enumerate(g) if ch in '0123456789']
+        if not digits:
+            groups[0] = '42'
+            digits = [(0, 0), (0, 1)]
+        base = rng.choice([0x0660, 0x06F0, 0x0966, 0x09E6, 0xFF10, 0x1D7CE, 0x0E50])
+        for i, j in rng.sample(digits, rng.choice([1, 1, 2, len(digits)])):
+            g = groups[i]
+            groups[i] = g[:j] + chr(base + int(g[j])) + g[j + 1:]
+        return dict(kind='mac', cls='mac/unicode-digits', groups=groups, sep=':')
     groups[rng.randrange(6)] = rng.choice(MAC_BADGRP[2:])
     return dict(kind='mac', cls='mac/bad-group', groups=groups, sep=':')
 
@@ -851,7 +892,7 @@ QUOTA_V6 = [('valid', 30), ('scope', 22), ('scope-odd', 4), ('scope-badbase', 4)
             ('colons', 8), ('v4tail-bad', 6), ('decor', 5)]
 QUOTA_CIDR = [('valid', 35), ('range', 14), ('missing', 8), ('empty', 6), ('slashes', 14), ('spelling', 8),
               ('junk', 5), ('badaddr', 10)]
-QUOTA_MAC = [('valid', 35), ('count', 15), ('sep', 15), ('suffix', 12), ('prefix', 6), ('onedigit', 6), ('bad', 11)]
+QUOTA_MAC = [('valid', 35), ('count', 15), ('sep', 13), ('suffix', 10), ('prefix', 6), ('onedigit', 6), ('bad', 9), ('unidigit', 6)]
 
 
 def pick_quota(rng, quota):
@@ -919,6 +960,8 @@ def run(ctx):
     def emit(case):
         nonlocal idx
         idx += 1
+        if idx % 41 == 0 and case['kind'] not in ('int', 'long') and 'wrap' not in case:
+            case = dict(case, wrap='strsub')        # every 41st text is handed over as an instance of a str subclass
         if ctx.mine(idx):
             ctx.sample(case.get('cls') or case['kind'], case)
             evaluate(ctx, case)
@@ -1034,6 +1077,10 @@ def run(ctx):
             seen.add(v)
             emit(dict(kind='int', value=v))
             emit(dict(kind='num', cls='range/canonical-str', value=v))
+            if min(abs(v - e) for e in (0, 255, 65535)) <= 3 or v % 97 == 0:
+                for how in ('intsub', 'intenum'):
+                    emit(dict(kind='int', value=v, wrap=how))
+                emit(dict(kind='num', cls='range/canonical-str-subclass', value=v, wrap='strsub'))
     if not ctx.quick:
         ctx.exhaustive['ports/ICMP numbers: every integer -1000..66599 as int and as canonical str'] = True
     ctx.exhaustive['ports/ICMP numbers: every integer within 300 of each range end as int and as canonical str'] = True
